@@ -527,6 +527,8 @@ def classify(res, linemap):
             if s.get('label'):
                 txt = ' '.join(x['text'].strip() for x in s.get('text', []))
                 label += '%s: %s | ' % (s['label'], txt[:200])
+        if not label and prim:
+            label = '%s: %s' % (msg, ' '.join(x['text'].strip() for x in prim[0].get('text', []))[:200])
         is_ref = any(msg.startswith(m) or m in msg for m in REFUTED_MSGS)
         is_limit = 'rlimit' in msg or 'Resource limit' in msg or 'timed out' in msg
         entry = dict(message=msg, line=line, where=title, label=label.strip(' |'), rendered=(d.get('rendered') or '')[:3000])
